@@ -170,13 +170,16 @@ func (u *Unreliable) receive(pkt *frame) error {
 		return ErrBadTubeState
 	}
 
+	// The FIN frame only marks the end of the tube; its empty payload is not a
+	// message anybody wrote.
+	if pkt.flags.FIN {
+		u.recv.Close()
+		return nil
+	}
 	select {
 	case u.recv.C <- pkt.data:
 	default:
 		return nil
-	}
-	if pkt.flags.FIN {
-		u.recv.Close()
 	}
 	return nil
 }
